@@ -114,7 +114,8 @@ type frame struct {
 	caller           *frame
 	fn               *ssa.Function
 	block, prevBlock *ssa.BasicBlock
-	env              map[ssa.Value]value // dynamic values of SSA variables
+	env              []value   // dynamic values of SSA variables, indexed by info.idx
+	info             *funcInfo // value numbering of fn
 	locals           []value
 	defers           *deferred
 	result           value
@@ -143,8 +144,10 @@ func (fr *frame) get(key ssa.Value) value {
 			}
 		}
 	}
-	if r, ok := fr.env[key]; ok {
-		return r
+	if ix, ok := fr.info.idx[key]; ok {
+		if r := fr.env[ix]; r != nil {
+			return r
+		}
 	}
 	panic(fmt.Sprintf("get: no value for %T: %v", key, key.Name()))
 }
@@ -231,13 +234,13 @@ func visitInstr(fr *frame, instr ssa.Instruction) continuation {
 
 	case *ssa.Call:
 		fn, args := prepareCall(fr, &instr.Call)
-		fr.env[instr] = call(fr.i, fr, instr.Pos(), fn, args)
+		fr.put(instr, call(fr.i, fr, instr.Pos(), fn, args))
 
 	case *ssa.ChangeInterface:
-		fr.env[instr] = fr.get(instr.X)
+		fr.put(instr, fr.get(instr.X))
 
 	case *ssa.ChangeType:
-		fr.env[instr] = fr.get(instr.X) // (can't fail)
+		fr.put(instr, fr.get(instr.X)) // (can't fail)
 
 	case *ssa.Convert:
 		x := fr.get(instr.X)
@@ -248,13 +251,13 @@ func visitInstr(fr *frame, instr ssa.Instruction) continuation {
 		}
 
 	case *ssa.SliceToArrayPointer:
-		fr.env[instr] = sliceToArrayPointer(instr.Type(), instr.X.Type(), fr.get(instr.X))
+		fr.put(instr, sliceToArrayPointer(instr.Type(), instr.X.Type(), fr.get(instr.X)))
 
 	case *ssa.MakeInterface:
-		fr.env[instr] = iface{t: instr.X.Type(), v: fr.get(instr.X)}
+		fr.put(instr, iface{t: instr.X.Type(), v: fr.get(instr.X)})
 
 	case *ssa.Extract:
-		fr.env[instr] = fr.get(instr.Tuple).(tuple)[instr.Index]
+		fr.put(instr, fr.get(instr.Tuple).(tuple)[instr.Index])
 
 	case *ssa.Slice:
 		fr.setv(instr, fr.slice(fr.get(instr.X), fr.get(instr.Low), fr.get(instr.High), fr.get(instr.Max)))
@@ -315,7 +318,7 @@ func visitInstr(fr *frame, instr ssa.Instruction) continuation {
 			evalBlock := func(b *ssa.BasicBlock, last *ssa.If) *Term {
 				for _, in := range b.Instrs[:len(b.Instrs)-1] {
 					if bo, ok := in.(*ssa.BinOp); ok {
-						fr.env[bo] = binop(bo.Op, bo.X.Type(), fr.get(bo.X), fr.get(bo.Y))
+						fr.put(bo, binop(bo.Op, bo.X.Type(), fr.get(bo.X), fr.get(bo.Y)))
 					}
 				}
 				return boolTerm(fr.get(last.Cond))
@@ -396,17 +399,17 @@ func visitInstr(fr *frame, instr ssa.Instruction) continuation {
 		}()
 
 	case *ssa.MakeChan:
-		fr.env[instr] = make(chan value, asInt64(fr.get(instr.Size)))
+		fr.put(instr, make(chan value, asInt64(fr.get(instr.Size))))
 
 	case *ssa.Alloc:
 		var addr *value
 		if instr.Heap {
 			// new
 			addr = new(value)
-			fr.env[instr] = addr
+			fr.put(instr, addr)
 		} else {
 			// local
-			addr = fr.env[instr].(*value)
+			addr = fr.get(instr).(*value)
 		}
 		*addr = zero(mustDeref(instr.Type()))
 
@@ -424,7 +427,7 @@ func visitInstr(fr *frame, instr ssa.Instruction) continuation {
 		for i := range slice {
 			slice[i] = zero(tElt)
 		}
-		fr.env[instr] = slice[:lenv]
+		fr.put(instr, slice[:lenv])
 
 	case *ssa.MakeMap:
 		var reserve int64
@@ -434,29 +437,29 @@ func visitInstr(fr *frame, instr ssa.Instruction) continuation {
 		if !fitsInt(reserve, fr.i.sizes) {
 			panic(fmt.Sprintf("ssa.MakeMap.Reserve value %d does not fit in int", reserve))
 		}
-		fr.env[instr] = makeMap(instr.Type().Underlying().(*types.Map).Key(), reserve)
+		fr.put(instr, makeMap(instr.Type().Underlying().(*types.Map).Key(), reserve))
 
 	case *ssa.Range:
-		fr.env[instr] = fr.rangeIter(fr.get(instr.X), instr.X.Type())
+		fr.put(instr, fr.rangeIter(fr.get(instr.X), instr.X.Type()))
 
 	case *ssa.Next:
-		fr.env[instr] = fr.get(instr.Iter).(iter).next()
+		fr.put(instr, fr.get(instr.Iter).(iter).next())
 
 	case *ssa.FieldAddr:
-		fr.env[instr] = &(*fr.get(instr.X).(*value)).(structure)[instr.Field]
+		fr.put(instr, &(*fr.get(instr.X).(*value)).(structure)[instr.Field])
 
 	case *ssa.Field:
-		fr.env[instr] = fr.get(instr.X).(structure)[instr.Field]
+		fr.put(instr, fr.get(instr.X).(structure)[instr.Field])
 
 	case *ssa.IndexAddr:
 		x := fr.get(instr.X)
 		idx := fr.get(instr.Index)
 		switch x := x.(type) {
 		case []value:
-			fr.env[instr] = &x[fr.index(idx, len(x))]
+			fr.put(instr, &x[fr.index(idx, len(x))])
 		case *value: // *array
 			a := (*x).(array)
-			fr.env[instr] = &a[fr.index(idx, len(a))]
+			fr.put(instr, &a[fr.index(idx, len(a))])
 		default:
 			panic(fmt.Sprintf("unexpected x type in IndexAddr: %T", x))
 		}
@@ -467,14 +470,14 @@ func visitInstr(fr *frame, instr ssa.Instruction) continuation {
 
 		switch x := x.(type) {
 		case array:
-			fr.env[instr] = x[fr.index(idx, len(x))]
+			fr.put(instr, x[fr.index(idx, len(x))])
 		case symStr:
 			fr.setv(instr, fr.strIndex(x.B, idx))
 		case string:
 			if _, ok := idx.(symv); ok {
 				fr.setv(instr, fr.strIndex(strBytes(x), idx))
 			} else {
-				fr.env[instr] = x[asInt64(idx)]
+				fr.put(instr, x[asInt64(idx)])
 			}
 		default:
 			panic(fmt.Sprintf("unexpected x type in Index: %T", x))
@@ -482,9 +485,9 @@ func visitInstr(fr *frame, instr ssa.Instruction) continuation {
 
 	case *ssa.Lookup:
 		if m, ok := fr.get(instr.X).(map[value]value); ok && fr.i.eng != nil {
-			fr.env[instr] = fr.mapLookup(instr, m, fr.get(instr.Index))
+			fr.put(instr, fr.mapLookup(instr, m, fr.get(instr.Index)))
 		} else {
-			fr.env[instr] = lookup(instr, fr.get(instr.X), fr.get(instr.Index))
+			fr.put(instr, lookup(instr, fr.get(instr.X), fr.get(instr.Index)))
 		}
 
 	case *ssa.MapUpdate:
@@ -508,14 +511,14 @@ func visitInstr(fr *frame, instr ssa.Instruction) continuation {
 		}
 
 	case *ssa.TypeAssert:
-		fr.env[instr] = typeAssert(fr.i, instr, fr.get(instr.X).(iface))
+		fr.put(instr, typeAssert(fr.i, instr, fr.get(instr.X).(iface)))
 
 	case *ssa.MakeClosure:
 		var bindings []value
 		for _, binding := range instr.Bindings {
 			bindings = append(bindings, fr.get(binding))
 		}
-		fr.env[instr] = &closure{instr.Fn.(*ssa.Function), bindings}
+		fr.put(instr, &closure{instr.Fn.(*ssa.Function), bindings})
 
 	case *ssa.Phi:
 		log.Fatal("unreachable") // phis are processed at block entry
@@ -561,7 +564,7 @@ func visitInstr(fr *frame, instr ssa.Instruction) continuation {
 				r = append(r, v)
 			}
 		}
-		fr.env[instr] = r
+		fr.put(instr, r)
 
 	default:
 		panic(fmt.Sprintf("unexpected instruction: %T", instr))
@@ -643,7 +646,7 @@ func isHarnessFn(f *ssa.Function) bool {
 func callSSA(i *interpreter, caller *frame, callpos token.Pos, fn *ssa.Function, args []value, env []value) value {
 	if i.base != nil {
 		if len(i.base.cfg.Intercept) > 0 {
-			if sum, ok := i.base.cfg.Intercept[fn.String()]; ok && caller != nil && !isHarnessFn(caller.fn) {
+			if sum, ok := i.base.cfg.Intercept[infoOf(fn).name]; ok && caller != nil && !isHarnessFn(caller.fn) {
 				if sf := fn.Pkg.Func(sum); sf != nil {
 					i.intercepted++
 					return callSSA(i, caller, callpos, sf, args, nil)
@@ -671,16 +674,16 @@ func callSSA(i *interpreter, caller *frame, callpos token.Pos, fn *ssa.Function,
 		caller: caller, // for panic/recover
 		fn:     fn,
 	}
+	fi := infoOf(fn)
 	if fn.Parent() == nil {
-		name := fn.String()
-		if ext := externals[name]; ext != nil {
+		if ext := fi.ext; ext != nil {
 			// stock externals are concrete-only: with a symbolic argument interpret the real body
-			if symAware[name] || fn.Blocks == nil || i.eng == nil || !anySym(args) {
+			if fi.sym || fn.Blocks == nil || i.eng == nil || !anySym(args) {
 				return ext(fr, args)
 			}
 		}
 		if fn.Blocks == nil {
-			panic("no code for function: " + name)
+			panic("no code for function: " + fi.name)
 		}
 	}
 
@@ -689,18 +692,19 @@ func callSSA(i *interpreter, caller *frame, callpos token.Pos, fn *ssa.Function,
 		panic("interp requires ssa.BuilderMode to include InstantiateGenerics to execute generics")
 	}
 
-	fr.env = make(map[ssa.Value]value)
+	fr.info = fi
+	fr.env = make([]value, fi.n)
 	fr.block = fn.Blocks[0]
 	fr.locals = make([]value, len(fn.Locals))
 	for i, l := range fn.Locals {
 		fr.locals[i] = zero(mustDeref(l.Type()))
-		fr.env[l] = &fr.locals[i]
+		fr.put(l, &fr.locals[i])
 	}
 	for i, p := range fn.Params {
-		fr.env[p] = args[i]
+		fr.put(p, args[i])
 	}
 	for i, fv := range fn.FreeVars {
-		fr.env[fv] = env[i]
+		fr.put(fv, env[i])
 	}
 	for fr.block != nil {
 		runFrame(fr)
@@ -795,7 +799,7 @@ func executePhis(fr *frame) []ssa.Instruction {
 			fr.phitemps = append(fr.phitemps, fr.get(phi.Edges[predIndex]))
 		}
 		for i, phi := range phis {
-			fr.env[phi.(*ssa.Phi)] = fr.phitemps[i]
+			fr.put(phi.(*ssa.Phi), fr.phitemps[i])
 		}
 	}
 	return nonPhis
